@@ -31,7 +31,8 @@ func TestMain(m *testing.M) {
 		Rule: "(scan-modify) rapid-generated element count 0..200 (incl. fewer elements than workers and non-multiples of the pool), pool size 1..33, topology triangle/point/line-strip, non-identity indices for points: ScanPrimitivesParallelWithPoolSize, Scan/ModifyFloat{1,2,3}AttributeParallelWithPoolSize and the NumCPU-sized variants; oracle: every index 0..n-1 visited exactly once with its own element, Modify*Parallel bit-identical to the sequential result. " +
 			"(marching) asymmetric sphere+box+capsule unions inside one block or straddling 1..3 block boundaries (thorough: up to 8 blocks): AddFieldParallel / AddFieldParallel2 then March, and AddField then MarchParallel, must give the triangle multiset of AddField+March (triangles keyed by the weld key of their corners, cyclic order preserved). " +
 			"The whole binary is race-instrumented (go test -race) and each case is repeated; the driver re-runs the campaign under taskset masks (all CPUs, 3 CPUs; thorough also 1 and 7) so the NumCPU-sized worker pools vary. Any race report is a violation. Non-trivial = n not divisible by the pool or n < pool; field spans >= 2 blocks. Distinct by case JSON. " +
-			"Marching fields carry 1..3 float1 functions; one case in four is a ball clipped by its own domain on the last sample layer of a storage block (non-trivial).",
+			"Marching fields carry 1..3 float1 functions; " +
+			" (unsupported-topology) line, line-loop and quad meshes, enumerated: the parallel primitive scan must report failure recoverably as the sequential one does - decided in a child process, every case non-trivial. Marching cases without extra functions also add the field to a canvas that already holds a small ball (2xAddFieldParallel, AddField+AddFieldParallel2) and compare with the sequential accumulation. one case in four is a ball clipped by its own domain on the last sample layer of a storage block (non-trivial).",
 		Assumptions: []string{
 			"real threads: the harness does not own the schedule; visit counts and outputs are exact on every run, interleavings are sampled, the race detector is schedule-independent for unsynchronised accesses that overlap at all",
 			"user callbacks are race-free (they only touch their own slot or take a mutex)",
